@@ -766,6 +766,11 @@ class SiteList(_Generic):
         self.member = z3.Or(self.member, cond)
     def select(self, f):
         _same_space(f.space, self.space, "positional selection (iloc) with indices collected in a loop over another table")
+        if not self.space.is_range:
+            # iterrows() over a table whose labels are not 0..n-1 yields LABELS; .iloc wants positions
+            ctx().oblige("frame.index-space", z3.BoolVal(False), kind="frame",
+                         detail="row labels collected by iterrows() over a table whose labels differ from its positions are used as positions (.iloc)")
+            raise Unsupported("labels used as positions")
         sp = _filter_space(f.space)
         return GFrame(f.cols, f.row, sp, z3.And(f.present, self.member), perm=f.perm)
 
